@@ -169,7 +169,8 @@ class Run:
             "violations": len(self.violations),
         }
         os.makedirs(os.path.join(VERIF, "evidence"), exist_ok=True)
-        with open(os.path.join(VERIF, "evidence", self.pid + ".json"), "w") as f:
+        evname = self.pid + (".partial" if getattr(self, "only", None) else "") + ".json"
+        with open(os.path.join(VERIF, "evidence", evname), "w") as f:
             json.dump(ev, f, indent=1, sort_keys=False, default=str)
             f.write("\n")
         print("SUMMARY property=%s tier=%s obligations=%d held=%d inconclusive=%d violations=%d known=%d queries=%d solver_s=%.1f wall_s=%.1f"
